@@ -218,6 +218,91 @@ example : ((deleteVar (ofConfig ["d", "z", "v"] [("h", ["d", "z"]), ("hs", ["z"]
     (["d", "v"], [("k", ["d"])]) := by decide
 
 
+/-- what the loop leaves, in closed form: the biases not registered with the variable, in their original order -/
+theorem delLoop_biases : ∀ (n : Nat) (o : Objs) (v : String), (o.refs v).length ≤ n →
+    (delLoop n o v).biases = o.biases.filter (fun p => !(o.refs v).contains p.1)
+  | 0, o, v, h => by
+    have : o.refs v = [] := List.length_eq_zero_iff.mp (by omega)
+    simp [delLoop, this]
+  | n + 1, o, v, h => by
+    unfold delLoop
+    cases hl : (o.refs v).getLast? with
+    | none =>
+      have : o.refs v = [] := List.getLast?_eq_none_iff.mp hl
+      simp [this]
+    | some b =>
+      have hb : b ∈ o.refs v := List.mem_of_getLast? hl
+      have hlt := deleteBias_refs_lt o v b hb
+      show (delLoop n (deleteBias o b) v).biases = _
+      rw [delLoop_biases n (deleteBias o b) v (by omega)]
+      show List.filter _ (List.filter (fun p => p.1 != b) o.biases) = _
+      rw [List.filter_filter]
+      apply List.filter_congr
+      intro p _
+      show (!((o.refs v).filter (· != b)).contains p.1 && (p.1 != b)) = !(o.refs v).contains p.1
+      by_cases hpb : p.1 = b
+      · have : (o.refs v).contains p.1 = true := by simpa [hpb] using hb
+        simp [hpb, hb]
+      · have e : ((o.refs v).filter (· != b)).contains p.1 = (o.refs v).contains p.1 := by
+          rw [Bool.eq_iff_iff]
+          simp [List.mem_filter, hpb]
+        simp [hpb]
+
+/-- `cv colvar v delete` in closed form -/
+theorem deleteVar_closed (o : Objs) (v : String) :
+    (deleteVar o v).vars = o.vars.filter (· != v) ∧
+    (deleteVar o v).biases = o.biases.filter (fun p => !(o.refs v).contains p.1) :=
+  ⟨delete_variable_vars o v, delLoop_biases _ o v (Nat.le_refl _)⟩
+
+/-- the back-reference lists after the loop, in closed form -/
+theorem delLoop_refs : ∀ (n : Nat) (o : Objs) (v w : String), (o.refs v).length ≤ n →
+    (delLoop n o v).refs w = (o.refs w).filter (fun b => !(o.refs v).contains b)
+  | 0, o, v, w, h => by
+    have : o.refs v = [] := List.length_eq_zero_iff.mp (by omega)
+    simp [delLoop, this]
+  | n + 1, o, v, w, h => by
+    unfold delLoop
+    cases hl : (o.refs v).getLast? with
+    | none =>
+      have : o.refs v = [] := List.getLast?_eq_none_iff.mp hl
+      simp [this]
+    | some b =>
+      have hb : b ∈ o.refs v := List.mem_of_getLast? hl
+      have hlt := deleteBias_refs_lt o v b hb
+      show (delLoop n (deleteBias o b) v).refs w = _
+      rw [delLoop_refs n (deleteBias o b) v w (by omega)]
+      show List.filter _ (List.filter (· != b) (o.refs w)) = _
+      rw [List.filter_filter]
+      apply List.filter_congr
+      intro x _
+      show (!((o.refs v).filter (· != b)).contains x && (x != b)) = !(o.refs v).contains x
+      by_cases hxb : x = b
+      · simp [hxb, hb]
+      · simp [hxb]
+
+/-- **the order of deletions does not matter**: deleting two variables one after the other leaves the same variables and the same
+    biases (same order, same configuration) whichever goes first. -/
+theorem delete_variables_commute (o : Objs) (v w : String) :
+    (deleteVar (deleteVar o v) w).vars = (deleteVar (deleteVar o w) v).vars ∧
+    (deleteVar (deleteVar o v) w).biases = (deleteVar (deleteVar o w) v).biases := by
+  have rv : (deleteVar o v).refs w = (o.refs w).filter (fun b => !(o.refs v).contains b) :=
+    delLoop_refs _ o v w (Nat.le_refl _)
+  have rw' : (deleteVar o w).refs v = (o.refs v).filter (fun b => !(o.refs w).contains b) :=
+    delLoop_refs _ o w v (Nat.le_refl _)
+  refine ⟨?_, ?_⟩
+  · rw [(deleteVar_closed _ w).1, (deleteVar_closed o v).1, (deleteVar_closed _ v).1, (deleteVar_closed o w).1,
+      List.filter_filter, List.filter_filter]
+    apply List.filter_congr
+    intro x _
+    exact Bool.and_comm _ _
+  · rw [(deleteVar_closed _ w).2, (deleteVar_closed o v).2, (deleteVar_closed _ v).2, (deleteVar_closed o w).2, rv, rw',
+      List.filter_filter, List.filter_filter]
+    apply List.filter_congr
+    intro p _
+    by_cases h1 : (o.refs v).contains p.1 <;> by_cases h2 : (o.refs w).contains p.1 <;>
+      simp_all [List.mem_filter]
+
+
 end objects
 
 end Cv.C20
